@@ -210,3 +210,57 @@ fn input_apply_n_budget() {
         }
     }
 }
+
+/// A count prefix of u64::MAX (resp. 2^63) followed by 35 zero bytes: length_prefixed must fail with
+/// "not enough input" after at most one element - it must not size anything from the count
+/// (Vec::with_capacity(count) aborts with a capacity overflow here, and with a count of 2^40 it
+/// would ask the allocator for terabytes). Deliberately concrete: it is the replayable witness for
+/// input_length_prefixed_hashes_budget (ANY count), which a symbolic-size allocation makes
+/// undecidable for CBMC instead of failing.
+fn huge_count(first9: u8) {
+    let mut buf = [0u8; 45];
+    let mut i = 0;
+    while i < 9 {
+        buf[i] = first9;
+        i += 1;
+    }
+    buf[9] = 0x01;
+    kani::cover!(true, "entry (replay witness)");
+    let r = length_prefixed(change_hash::<leb128::Error>)(Input::new(&buf));
+    assert!(r.is_err());
+    std::mem::forget(r);
+}
+
+#[kani::proof]
+#[kani::unwind(13)]
+fn input_length_prefixed_huge_count_max() {
+    huge_count(0xff)
+}
+
+#[kani::proof]
+#[kani::unwind(13)]
+fn input_length_prefixed_huge_count_2p63() {
+    huge_count(0x80)
+}
+
+/// apply_n with n = usize::MAX (resp. 2^62) over a concrete 4-byte input: fails at the second
+/// element, allocates nothing proportional to n (replayable witness for input_apply_n_budget).
+fn apply_huge(n: usize) {
+    let buf = [1u8, 2, 3, 4];
+    kani::cover!(true, "entry (replay witness)");
+    let r = apply_n(n, take4::<()>)(Input::new(&buf));
+    assert!(r.is_err());
+    std::mem::forget(r);
+}
+
+#[kani::proof]
+#[kani::unwind(8)]
+fn input_apply_n_huge_count_max() {
+    apply_huge(usize::MAX)
+}
+
+#[kani::proof]
+#[kani::unwind(8)]
+fn input_apply_n_huge_count_2p62() {
+    apply_huge(1 << 62)
+}
